@@ -120,8 +120,16 @@ class Shadow:
             self.views.append(x.copy())
             self.types.append(t)
             self.parent.append(None)
+        elif op in ("iter", "slice"):
+            for _, th in expand(self, c):
+                th()
         else:
             raise ValueError(op)
+
+    def register(self, vi, i, r):
+        self.views.append(r)
+        self.types.append(self.elem_type(vi, i))
+        self.parent.append((vi, i))
 
     def stale(self, vi):
         """is some link of the hook chain of view vi no longer valid in its parent (slot popped away,
@@ -146,6 +154,35 @@ class Shadow:
             out.append([attempt(lambda: x.hash_tree_root(), anyerr=True),
                         attempt(lambda: bytes(x.encode_bytes()), anyerr=True)])
         return out
+
+
+def expand(sh, c):
+    """the sub-steps (model-level command, thunk on the implementation) of history command c.  Element views of a
+    vector / list are obtained by indexing ("get"), by ITERATING the parent ("iter": one next() per sub-step, the
+    iterator stays alive) or by SLICING it ("slice": the slice is taken at the first sub-step); for the model all
+    three are a sequence of element reads."""
+    op, vi = c[0], c[1]
+    if op == "iter":
+        box = {}
+
+        def step(i):
+            if "it" not in box:
+                box["it"] = iter(sh.views[vi])
+                sh.iters = getattr(sh, "iters", []) + [box["it"]]
+            sh.register(vi, i, next(box["it"]))
+        return [(["get", vi, i], (lambda i=i: step(i))) for i in range(c[2])]
+    if op == "slice":
+        box = {}
+
+        def step(i):
+            if "rs" not in box:
+                x = sh.views[vi]
+                box["rs"] = x[c[2]:min(c[3], len(x))]
+            if i - c[2] >= len(box["rs"]):
+                raise IndexError(i)
+            sh.register(vi, i, box["rs"][i - c[2]])
+        return [(["get", vi, i], (lambda i=i: step(i))) for i in range(c[2], c[3])]
+    return [(c, lambda: sh.run(c))]
 
 
 def cmd_coq(sh_types, c, elem_t):
@@ -189,13 +226,14 @@ def execute(inp):
     obs = [sh.observe()]
     coq_cmds = []
     nfail = 0
-    for c in cmds:
-        et = elem_for(sh, c)
-        coq_cmds.append(cmd_coq(sh.types, c, et))
-        r = attempt(lambda: sh.run(c), anyerr=True)
-        ok = not isinstance(r, E)
-        nfail += 0 if ok else 1
-        obs.append([ok, sh.observe()])
+    for c0 in cmds:
+        for c, th in expand(sh, c0):
+            et = elem_for(sh, c)
+            coq_cmds.append(cmd_coq(sh.types, c, et))
+            r = attempt(th, anyerr=True)
+            ok = not isinstance(r, E)
+            nfail += 0 if ok else 1
+            obs.append([ok, sh.observe()])
     coq = "(%s, %s, %s)" % (ty_coq(t), val_coq(t, v), clist(coq_cmds))
     return coq, obs, {"failed": nfail, "views": len(sh.views)}
 
@@ -230,7 +268,7 @@ def gen_arg(rng, e, valid=True):
     return ["none"]
 
 
-def gen_history(rng, t, n_cmds, p_invalid=0.0, p_child=0.0, p_copy=0.0, top_only=False):
+def gen_history(rng, t, n_cmds, p_invalid=0.0, p_child=0.0, p_copy=0.0, top_only=False, p_iter=0.0):
     """returns input dict; commands are chosen by looking at the live implementation objects"""
     v = gen_value(rng, t, cap=6)
     if t[0] in ("list", "bitlist") and rng.random() < 0.5:
@@ -263,6 +301,9 @@ def gen_history(rng, t, n_cmds, p_invalid=0.0, p_child=0.0, p_copy=0.0, top_only
         elif r < p_copy + p_child and k in ("vec", "list", "cont", "union") and len(sh.views) < 9:
             if k == "union":
                 c = ["value", vi]
+            elif ln > 0 and k in ("vec", "list") and ln <= 6 and len(sh.views) + ln < 14 and rng.random() < p_iter:
+                a = rng.randrange(0, ln)
+                c = ["iter", vi, ln] if rng.random() < 0.6 else ["slice", vi, a, rng.randrange(a + 1, ln + 1)]
             elif ln > 0:
                 i = rng.randrange(0, ln) if not invalid else rng.choice([ln, -1, ln + 3])
                 c = ["get", vi, i]
@@ -338,5 +379,5 @@ def shrink_history(inp):
     for i in range(n - 1):
         c2 = cmds[:i] + cmds[i + 1:]
         # dropping a get/value/copy shifts later view ids: only drop commands that create no view
-        if cmds[i][0] not in ("get", "value", "copy"):
+        if cmds[i][0] not in ("get", "value", "copy", "iter", "slice"):
             yield dict(inp, cmds=c2)
